@@ -18,10 +18,10 @@ PROPS = {
         text="check_allow and login_failed are proved against exact functional contracts over the symbolic throttle tables and a real-valued clock: entries are never purged within PURGE_TIME of the "
              "last recorded failure (L1), each recorded failure increments the count (L2), a locked user or address is refused (L3), and an attempt with both counts at or below threshold is never refused (L4). "
              "The statement over all timed histories follows by induction over calls (DESIGN 2.7). authenticate is proved to return only for an existing account whose *current* password-file hash accepts the password "
-             "(read_users_from_file's merge into USERS is proved to replace every record), and PreAuthenticated.do_login to reach AUTHENTICATED only after check_allow allowed and authenticate returned, to leave the state unchanged on every refusal and to record every wrong-password attempt.",
+             "(read_users_from_file's merge into USERS is proved to replace every record), and PreAuthenticated.do_login to reach AUTHENTICATED only after check_allow allowed and authenticate returned, to leave the state unchanged on every refusal and to record every wrong-password attempt. Proved since (POP3 path): POP3 PASS checks the throttle before the password, enters TRANSACTION only when the account's current hash accepts the password and the attempt is not throttled, and answers '-ERR invalid username or password' only after recording the failure against user and address.",
         note="Not yet under contract: POP3 _do_pass, the IMAPSubprocessInterface.message state gate, hashers.verify_password (A-HASH assumed as the uninterpreted predicate pw_ok), the password-file line parser (assumed to yield the file's records). Trusted: z3, PyVC encoding, time.time() non-decreasing.",
         assumptions=["z3 sound", "PyVC encoding (DESIGN 2.2)", "A-IO: time.time() is non-decreasing", "A-HASH not needed for (c),(d)"],
-        not_decided="POP3 path, front-end state gate and the hash function itself",
+        not_decided='the front-end state gate for POP3 commands other than PASS; the hash function itself',
     ),
     "C04": dict(
         design_ref="DESIGN.md 7 C04",
@@ -41,7 +41,7 @@ PROPS = {
         category="other",
         text="Mailbox.would_conflict is proved, for every command kind, peek bit, message sets and any list of executing commands, to admit a command only if it does not have to be serialised "
              "against an executing one (structure writers run alone; flag writers never overlap a SEARCH), to admit everything when nothing executes, and never to refuse status-only commands "
-             "unless a structure writer executes. This is clause (a) of the property; interleaving-level clauses are not decided here. Proved since (second contract on Mailbox.copy, verified up to the point where it queues on the destination): when COPY/MOVE starts to wait for the destination mailbox, the command has already been marked completed on the source and waits with a fresh command object - two opposite-direction copies therefore never hold one mailbox while waiting for the other.",
+             "unless a structure writer executes. This is clause (a) of the property; interleaving-level clauses are not decided here. Proved since (second contract on Mailbox.copy, verified up to the point where it queues on the destination): when COPY/MOVE starts to wait for the destination mailbox, the command has already been marked completed on the source and waits with a fresh command object - two opposite-direction copies therefore never hold one mailbox while waiting for the other. Recorded fix F04: a UID command that waited behind another session's EXPUNGE was applied to the messages standing at the positions resolved before the EXPUNGE. Bounded since: UID STORE / UID COPY / UID FETCH of each remaining UID issued concurrently with another session's EXPUNGE of 1, 2, 1:2 or 3 on the real server; the effect is read back by UID.",
         note='Partial: clauses (b), (d), (e) (stale resolution, deadlock freedom in general, linearizability of whole responses) are not under contract; of (c) only the release-before-queue ordering of COPY/MOVE is. Trusted: z3, PyVC encoding, IMAPClientCommand.qstr, aiofiles / MH.get_bytes in the copy loop.',
         assumptions=["z3 sound", "PyVC encoding (DESIGN 2.2)", "STORE and the FETCH tail update flags in one atomic asyncio segment (no await inside the update loops)"],
         not_decided="(b) stale resolution, (c) COPY/MOVE steps, (d) deadlock freedom, (e) linearizability",
@@ -87,7 +87,7 @@ PROPS = {
         category="other",
         text="For all handler states satisfying the session invariant: _valid_msg_num only yields numbers of the snapshot that are not marked; DELE only adds one such number to the marks and RSET empties them, "
              "neither touching the snapshot nor the mailbox (frame obligations); QUIT hands Mailbox.expunge exactly the snapshot UIDs of the marked numbers, so - by expunge's proved contract - exactly the marked messages "
-             "that still exist are removed and nothing else; RETR's reply is proved equal to '+OK <octets of the rendering>' + the dot-stuffed rendering + the terminator line (the repaired defect F42 sent two extra octets).",
+             "that still exist are removed and nothing else; RETR's reply is proved equal to '+OK <octets of the rendering>' + the dot-stuffed rendering + the terminator line (the repaired defect F42 sent two extra octets). Proved since: the front end's POP3 relay writes to the client, piece by piece and in order, exactly what the user process sent (recorded fix F52: a line longer than 64 KiB closed the connection mid-reply). Bounded since: the real relay against a stand-in user process with lines from 1 kB to 1 MB.",
         note="Partial: STAT/LIST totals, TOP and UIDL multi-line bodies are checked for frame only; dot_stuff itself is bounded (exhaustive to length 8); 'RETR n returns the message UIDL n named' across IMAP expunge+pack "
              "(DESIGN F43) is not decided. Assumed contracts: msg_as_bytes/get_msg_size share one deterministic renderer ending in CRLF (A-EMAIL, C16), Mailbox.get_msg, ClientProxy.push.",
         assumptions=["z3 sound", "PyVC encoding (DESIGN 2.2; str(int) and str.join as named functions)", "A-EMAIL renderer contract", "Mailbox.expunge contract (proved under C05)", "Inv(Mailbox) at command boundaries"],
